@@ -185,6 +185,8 @@ def rule_b(R, ctx, rid="C17.b"):
                 continue
             sites.append((fn, cs.bb, site, cs.loc(), recv))
     for fp in READ_TRAVERSALS:
+        if "::weak::" in fp and "weak" not in Y.features:
+            continue  # compiled only with feature `weak`
         fn = Y.fn(fp)
         bbs = {}
         for i, j, s in fn.stmts():
